@@ -84,6 +84,13 @@ func main() {
 		os.Exit(replay(os.Args[2]))
 	case "selftest":
 		os.Exit(selftest())
+	case "gen-golden":
+		// development only: (re)creates /verif/golden from the repository as it is now
+		made := "unknown"
+		if len(os.Args) > 2 {
+			made = os.Args[2]
+		}
+		os.Exit(genGolden(made))
 	case "selftest-race":
 		os.Exit(selftestRace())
 	default:
